@@ -121,6 +121,11 @@ func (c *ClusterNodes) loopClusterNodes() {
 				continue
 			}
 
+			// only "$<len>\r\n<text>\n\r\n" can be sliced below
+			if idx := bytes.IndexByte(msg, '\n'); idx < 2 || len(msg) < idx+4 {
+				continue
+			}
+
 			length, err := parseLen(msg[1 : bytes.IndexByte(msg, '\n')-1])
 			if err != nil {
 				logging.Errorf("[cluster loop] update cluster nodes: nodes info invalid: %s", err)
